@@ -13,6 +13,8 @@ func init() {
 			r.Try(func() { ruleErrorResultNilCheckedOnValue(w, r, "R15.19") })
 			r.Rule("R15.18", 1, "no constructor panic escapes: the invoker's recover handler never panics again")
 			r.Try(func() { ruleRecoverNeverRepanics(w, r, "R15.18") })
+			r.Rule("R15.21", 1, "no operation panics on an incomparable service instance: instances are never compared with == through the Disposable interface")
+			r.Try(func() { ruleNoInstanceEquality(w, r, "R15.21") })
 			r.Rule("R15.17", 1, "no operation panics on an unhashable service instance: no map is keyed by an interface type that holds instances")
 			r.Try(func() { ruleNoInstanceMapKeys(w, r, "R15.17") })
 			r.Rule("R15.16", 2, "a Build that fails after construction started leaves no partial state: it closes the partial provider on every such exit")
@@ -66,6 +68,9 @@ func init() {
 		"Structural necessary conditions of 'built-in injectables and context linkage are scope-correct': the built-in switch of resolution returns exactly the resolving scope's own context / root provider / itself for the three reserved types, only for unkeyed ungrouped requests and before the registry lookup; constructors are invoked with the constructing scope as resolver and singletons on the root scope; the scope's context is WithValue(derived parent, scopeContextKey{}, that scope) with the caller's context (or the documented default) as parent on every path (reaching definitions); the key type is private to the constructor and FromContext; every successful registration check has tested descriptor.Type against the reserved table. NOT decided: observed identities over all scope trees.",
 		commonAssumptions, func(w *World, r *Report) {
 			checkC18(w, r)
+			r.Rule("R18.8", 1, "singletons are constructed at Build on the root scope only: the Singleton clause of resolution never reaches a constructor (a singleton built on demand would capture the requesting scope and its context)")
+			r.Rule("R18.9", 1, "what a scope resolves for a scoped service is what that scope constructed or cached: hit returns, construct on miss through its own createInstance (an instance constructed in another scope carries that scope's context)")
+			r.Try(func() { ruleResolveSwitch(w, r, "R18.8", "R18.9", "") })
 			r.Rule("R18.7", 3, "the reserved-type test is reached for every descriptor that is inserted: the registration check dominates every insertion (group members included)")
 			r.Try(func() { reexport(w, r, "R18.7", func(sub *Report) { checkC17(w, sub) }, "R17.2") })
 		})
